@@ -161,9 +161,16 @@ Proof.
   intros sg ts. unfold call_results, Callable.results_valid. simpl. rewrite orb_false_r.
   destruct (length ts =? length (s_out sg)) eqn:El.
   - apply Nat.eqb_eq in El.
-    destruct (check_targets_spec (s_out sg) ts 0 El) as [[Hv Hc]|[Hv [e Hc]]]; rewrite Hc; simpl.
-    + left. auto.
-    + right. eauto.
+    destruct (funcof_max <? length (s_out sg)) eqn:Em.
+    + right. split; [|eauto]. apply Nat.ltb_lt in Em.
+      assert (Hle : (length (s_out sg) <=? funcof_max) = false) by (apply Nat.leb_gt; exact Em).
+      rewrite Hle. apply andb_false_r.
+    + apply Nat.ltb_ge in Em.
+      assert (Hle : (length (s_out sg) <=? funcof_max) = true) by (apply Nat.leb_le; exact Em).
+      rewrite Hle, andb_true_r.
+      destruct (check_targets_spec (s_out sg) ts 0 El) as [[Hv Hc]|[Hv [e Hc]]]; rewrite Hc; simpl.
+      * left. auto.
+      * right. eauto.
   - right. split; [|eauto].
     destruct (forallb2 target_ok (s_out sg) ts) eqn:Ef; auto.
     apply forallb2_length in Ef. apply Nat.eqb_neq in El. congruence.
@@ -199,17 +206,24 @@ Definition slice_thunk (sg : sig) (t : val) : option (rthunk ty) :=
 
 Lemma call_results_slice_spec : forall (sg : sig) t,
   (slice_valid sg t = true /\ exists th, slice_thunk sg t = Some th /\
-   call_results_slice ty kind assignable elem sg t = Ok th) \/
-  (slice_valid sg t = false /\ exists e, call_results_slice ty kind assignable elem sg t = Err e).
+   call_results_slice ty kind assignable elem true sg t = Ok th) \/
+  (slice_valid sg t = false /\ exists e, call_results_slice ty kind assignable elem true sg t = Err e).
 Proof.
   intros sg t. unfold call_results_slice, Callable.slice_valid, slice_thunk.
   destruct (vty t) as [pt|]; [|right; eauto].
   destruct (is_ptr (kind pt)); simpl; [|right; eauto].
   destruct (vnil t); simpl; [right; eauto|].
   destruct (is_slice (kind (elem pt))); simpl; [|right; eauto].
-  destruct (check_slice_assign_spec (s_out sg) (elem (elem pt)) 0) as [[Hv Hc]|[Hv [e Hc]]]; rewrite Hc, Hv; simpl.
-  - left. split; auto. eexists. split; reflexivity.
-  - right. eauto.
+  destruct (funcof_max <? length (s_out sg)) eqn:Em.
+  - right. split; [|eauto]. apply Nat.ltb_lt in Em.
+    assert (Hle : (length (s_out sg) <=? funcof_max) = false) by (apply Nat.leb_gt; exact Em).
+    rewrite Hle. reflexivity.
+  - apply Nat.ltb_ge in Em.
+    assert (Hle : (length (s_out sg) <=? funcof_max) = true) by (apply Nat.leb_le; exact Em).
+    rewrite Hle. simpl.
+    destruct (check_slice_assign_spec (s_out sg) (elem (elem pt)) 0) as [[Hv Hc]|[Hv [e Hc]]]; rewrite Hc, Hv; simpl.
+    + left. split; auto. eexists. split; reflexivity.
+    + right. eauto.
 Qed.
 
 (* ---- the options, in order ---- *)
@@ -291,10 +305,12 @@ Proof.
   intros sg o th outs Hv Hna Hth Hty. destruct o as [a|targets|t]; simpl in *.
   - exfalso. exact (Hna a eq_refl).
   - injection Hth as <-. simpl. rewrite <- Hty, convert_all_id.
+    unfold Callable.results_valid in Hv. apply andb_true_iff in Hv. destruct Hv as [Hv _].
     apply store_all_spec. rewrite Hty. exact Hv.
   - unfold slice_thunk in Hth. unfold Callable.slice_valid in Hv.
     destruct (vty t) as [pt|] eqn:Et; [|discriminate]. injection Hth as <-. simpl.
-    apply andb_true_iff in Hv. destruct Hv as [Hv Ha]. apply andb_true_iff in Hv. destruct Hv as [Hv Hs].
+    apply andb_true_iff in Hv. destruct Hv as [Hv Ha]. apply andb_true_iff in Hv. destruct Hv as [Hv _].
+    apply andb_true_iff in Hv. destruct Hv as [Hv Hs].
     apply andb_true_iff in Hv. destruct Hv as [Hp Hn]. apply negb_true_iff in Hn.
     rewrite <- Hty in Ha |- *. rewrite (convert_all_retype _ _ Ha).
     destruct outs as [|v outs]; simpl; [reflexivity|].
@@ -440,6 +456,15 @@ Lemma current_too_many_args_panics :
   exC false MNone (mkSig [] (Some 0) []) (ex_body []) [OArgs (repeat (v_int 5) 129)] = mkOut (RPanic PFuncOfTooMany) [] [].
 Proof. vm_compute. reflexivity. Qed.
 
+(* a function with 129 results and CallResultsSlice(&[]int) / CallResults(129 valid pointers): reflect.FuncOf refuses
+   to build the results thunk *)
+Definition sig129 : sig nat := mkSig [] None (repeat 0 129).
+Definition body129 : list (rval nat) -> list (rval nat) := fun _ => repeat (mkR 0 (SVal 9)) 129.
+Lemma current_too_many_results_panics :
+  exC false MNone sig129 body129 [OResultsSlice (mkVal (Some 5) false 3%Z)] = mkOut (RPanic PFuncOfTooMany) [] [] /\
+  exC false MNone sig129 body129 [OResults (repeat (v_pint 3) 129)] = mkOut (RPanic PFuncOfTooMany) [] [].
+Proof. vm_compute. split; reflexivity. Qed.
+
 Lemma nil_refuted : exists (sg : sig nat) (body : list (rval nat) -> list (rval nat)) (opts : list (copt nat)),
   (forall a, map rty (body a) = s_out sg) /\ exists p, o_res (exC false MNone sg body opts) = RPanic p.
 Proof.
@@ -453,10 +478,12 @@ Lemma current_panic_classes :
   is_panic (exC false MNone (mkSig [0] (Some 2) []) (ex_body []) [OArgs [v_int 7; v_nil]]) = true /\
   is_panic (exC false MNone (mkSig [] None [0]) (ex_body [mkR 0 (SVal 9)]) [OResults [v_nil]]) = true /\
   is_panic (exC false MNone (mkSig [0] None []) (ex_body []) []) = true /\
-  is_panic (exC false MNone (mkSig [] (Some 0) []) (ex_body []) [OArgs (repeat (v_int 5) 129)]) = true.
-Proof. vm_compute. auto. Qed.
+  is_panic (exC false MNone (mkSig [] (Some 0) []) (ex_body []) [OArgs (repeat (v_int 5) 129)]) = true /\
+  is_panic (exC false MNone sig129 body129 [OResultsSlice (mkVal (Some 5) false 3%Z)]) = true /\
+  is_panic (exC false MNone sig129 body129 [OResults (repeat (v_pint 3) 129)]) = true.
+Proof. vm_compute. repeat split. Qed.
 
-(* the same five inputs through the repaired pipeline: nil for *int is passed as the zero value, the rest are errors *)
+(* the same inputs through the repaired pipeline: nil for *int is passed as the zero value, the rest are errors *)
 Lemma fixed_on_panic_classes :
   exC true MNone (mkSig [2] None []) (ex_body []) [OArgs [v_nil]] = mkOut ROk [[mkR 2 (SZeroOf 2)]] [] /\
   exC true MNone (mkSig [0] (Some 2) []) (ex_body []) [OArgs [v_int 7; v_nil]]
@@ -464,7 +491,10 @@ Lemma fixed_on_panic_classes :
   exC true MNone (mkSig [0] None []) (ex_body []) [OArgs [v_nil]] = mkOut (RErr (EArgsNil 0)) [] [] /\
   exC true MNone (mkSig [] None [0]) (ex_body [mkR 0 (SVal 9)]) [OResults [v_nil]] = mkOut (RErr (EResNilTarget 0)) [] [] /\
   exC true MNone (mkSig [0] None []) (ex_body []) [] = mkOut (RErr ECallArgsMissing) [] [] /\
-  exC true MNone (mkSig [] (Some 0) []) (ex_body []) [OArgs (repeat (v_int 5) 129)] = mkOut (RErr EArgsTooMany) [] [].
+  exC true MNone (mkSig [] (Some 0) []) (ex_body []) [OArgs (repeat (v_int 5) 129)] = mkOut (RErr EArgsTooMany) [] [] /\
+  exC true MNone sig129 body129 [OResultsSlice (mkVal (Some 5) false 3%Z)] = mkOut (RErr ESliceTooMany) [] [] /\
+  exC true MNone sig129 body129 [OResults (repeat (v_pint 3) 129)] = mkOut (RErr EResTooMany) [] [] /\
+  exC true MNone sig129 body129 [] = mkOut ROk [[]] [].
 Proof. vm_compute. repeat split. Qed.
 
 (* seeded defects: the theorem is sensitive to each validation *)
